@@ -107,6 +107,8 @@ impl Oplog {
         stream.write(&[opp_to_write]).unwrap(); // 1
         stream.flush().unwrap();
         log::debug!("will write :  db: {db}", db = db_id);
+        #[cfg(nun_verif)]
+        crate::verif::crash_point("oplog.append");
         if stream.stream_position().unwrap() > single_op_log_file_size() {
             Err(String::from("Oplog max size reached"))
         } else {
@@ -194,6 +196,8 @@ impl Oplog {
             );
             fs::rename(&Oplog::get_op_log_file_name(), &new_oplog_file_name)
                 .expect("Could not rename the oplog file");
+            #[cfg(nun_verif)]
+            crate::verif::crash_point("oplog.rotate");
         }
         BufWriter::with_capacity(
             OP_RECORD_SIZE,
@@ -229,6 +233,10 @@ fn get_dir_name() -> String {
 
 #[cfg(not(test))]
 fn get_dir_name() -> String {
+    #[cfg(nun_verif)]
+    if let Some(dir) = crate::verif::data_dir() {
+        return dir;
+    }
     NUN_DBS_DIR.to_string()
 }
 
@@ -268,6 +276,8 @@ fn write_keys_map_to_disk(keys: HashMap<String, u64>) {
         .open(keys_file_name)
         .unwrap();
     bincode::serialize_into(&mut keys_file, &keys.clone()).unwrap();
+    #[cfg(nun_verif)]
+    crate::verif::crash_point("keymap.write");
 }
 
 fn get_invalidate_file_name() -> String {
@@ -286,6 +296,8 @@ fn remove_backup_key_file(db_name: &String) {
     let file_name = format!("{}.keys.old", file_name_from_db_name(&db_name));
     if Path::new(&file_name).exists() {
         fs::remove_file(file_name).unwrap();
+        #[cfg(nun_verif)]
+        crate::verif::crash_point("keys_old.remove");
     }
 }
 
@@ -360,6 +372,8 @@ pub fn snapshot_keys(dbs: &Arc<Databases>) {
         log::debug!("Will snapshot the keys {}", keys_map.len());
         write_keys_map_to_disk(keys_map);
         mark_op_log_as_valid(dbs).unwrap();
+        #[cfg(nun_verif)]
+        crate::verif::crash_point("flag.valid.write");
     } else {
         log::debug!("keys already save, not saving keys file! Metadata already saved!")
     }
@@ -613,6 +627,8 @@ pub fn invalidate_oplog(
         dbs.is_oplog_valid.swap(false, Ordering::Relaxed);
         log::debug!("invalidating oplog");
         stream.seek(SeekFrom::Start(0)).unwrap();
+        #[cfg(nun_verif)]
+        crate::verif::crash_point("flag.invalidate.seek");
         return stream.write(&[0]);
     } else {
         log::debug!("No need to invalidating oplog as it is already valid");
